@@ -93,12 +93,20 @@ def make_metadata(c2, values, info, aes_rand):
     return m
 
 
-def roundtrip(acc, c2, bits, which, values, info, aes_rand, tag):
+def roundtrip(acc, c2, bits, which, values, info, aes_rand, tag, preset_size=None, reuse=None):
+    """preset_size: the caller left an arbitrary value in the size field; reuse: the same metadata object was
+    encrypted before with another info string (both must still be 'made consistent' on encryption)."""
     key = K.key(bits, which)
     pub = key.public_key()
-    m = make_metadata(c2, values, info, aes_rand)
+    m = make_metadata(c2, values, info if reuse is None else reuse, aes_rand)
+    if reuse is not None:
+        with ScriptedRandom(acc.seed + 999):
+            call(c2.encrypt_metadata, m, pub)
+        m.info = info
+    if preset_size is not None:
+        m.size = preset_size
     acc.transitions += 1
-    case = {"kind": "roundtrip", "bits": bits, "which": which, "values": values, "info": info.hex(), "aes_rand": aes_rand.hex()}
+    case = {"kind": "roundtrip", "bits": bits, "which": which, "values": values, "info": info.hex(), "aes_rand": aes_rand.hex(), "preset_size": preset_size, "reuse": None if reuse is None else reuse.hex()}
     with ScriptedRandom(acc.seed + len(info)):
         blob = call(c2.encrypt_metadata, m, pub)
     nontrivial = bool(info) or any(values.values()) or any(aes_rand)
@@ -153,6 +161,12 @@ def chunk_info(chunk, acc):
         info = bytes((0x20 + (i * 7 + ln) % 95) for i in range(ln))
         rand = bytes(lcg(16, acc.seed + ln))
         roundtrip(acc, c2, bits, acc.seed % 2, {"bid": 1234, "pid": 4321}, info, rand, ("info", ln))
+        if ln in (0, 1, 7, LIMIT[bits]):
+            # the size field is made consistent whatever it held before, and for a re-used metadata object
+            for ps in (1, 51, 51 + ln + 1, 0xFFFFFFFF):
+                roundtrip(acc, c2, bits, acc.seed % 2, {"bid": 2}, info, rand, ("preset-size", ln, ps), preset_size=ps)
+            for prev in (b"", b"a-longer-previous-info-string", info + b"x"):
+                roundtrip(acc, c2, bits, acc.seed % 2, {"bid": 2}, info, rand, ("reuse", ln, prev), reuse=prev)
         if ln in (0, 1, LIMIT[bits]):
             roundtrip(acc, c2, bits, (acc.seed + 1) % 2, {}, bytes([0xFF, 0x00, 0x09][:ln]).ljust(ln, b"\x00"), b"\x00" * 16, ("info-bin", ln))
     acc.sample({"rsa_bits": bits, "info_lengths": f"0..{LIMIT[bits] + 1}", "limit": LIMIT[bits]})
@@ -263,7 +277,7 @@ def replay(case):
 
     a = Acc("replay", "quick", 0)
     if case["kind"] == "roundtrip":
-        roundtrip(a, c2, case["bits"], case["which"], case["values"], bytes.fromhex(case["info"]), bytes.fromhex(case["aes_rand"]), "replay")
+        roundtrip(a, c2, case["bits"], case["which"], case["values"], bytes.fromhex(case["info"]), bytes.fromhex(case["aes_rand"]), "replay", preset_size=case.get("preset_size"), reuse=None if case.get("reuse") is None else bytes.fromhex(case["reuse"]))
     elif case["kind"] == "blob":
         got = call(c2.decrypt_metadata, bytes.fromhex(case["blob"]), K.key(case["bits"], case["which"]))
         ok = isinstance(got, str) and got.startswith("EXC ValueError")
